@@ -20,8 +20,53 @@ pub fn check(bc: &BuildCase, fam: &str, obs: &mut Obs) -> Result<(), Fail> {
         }
     };
     label_case(obs, bc, fam, Some(&built));
-    let qr = &built.qr;
+    let (r_level, r_mask, r_version, r_mode) = verify(&built.qr, bc, "", obs)?;
+    // Copies are QR codes too (`Clone` is part of the public type): `clone()`, `clone_from` onto a value that held a
+    // version-40 symbol, and `clone_from` onto a value that held a small symbol whose level, mask and mode all differ
+    // from the ones under test. Every copy must report what ITS symbol encodes.
+    for (what, q) in crate::fq::copies(&built.qr) {
+        let cell = std::cell::RefCell::new(crate::engine::LocalStats::default());
+        let mut sub = Obs::new(&cell);
+        let r = verify(&q, bc, what, &mut sub).map_err(|mut f| {
+            f.sig = format!("copy:{}", f.sig);
+            f
+        })?;
+        ensure!(
+            r == (r_level, r_mask, r_version, r_mode) && q.size == built.qr.size,
+            "copy:fields_differ",
+            "{} reports {:?} size {}, the original {:?} size {} ({:?})",
+            what, r, q.size, (r_level, r_mask, r_version, r_mode), built.qr.size, bc
+        );
+    }
+    obs.label("copies_checked");
+    let n = built.qr.size;
+    let forced: Vec<&str> = [
+        bc.opts.level.map(|_| "level"),
+        bc.opts.mask.map(|_| "mask"),
+        bc.opts.version.map(|_| "version"),
+        bc.opts.mode.map(|_| "mode"),
+    ]
+    .iter()
+    .flatten()
+    .copied()
+    .collect();
+    let key = format!("{}|{}|{}|{}", r_level.name(), r_mask, r_version, forced.join("+"));
+    obs.nontrivial(crate::engine::hash_bytes(key.as_bytes()));
+    obs.sample(&format!("forced:{}", forced.join("+")), || {
+        let mut s = bc.to_sample();
+        s["reported"] = json!({"level": r_level.name(), "mask": r_mask, "version": r_version, "mode": r_mode.name(), "size": n});
+        s
+    });
+    Ok(())
+}
+
+type Reported = (Level, u8, usize, Mode);
+
+/// Everything the property says about ONE QRCode value: fields present, equal to the forced options, and equal to what
+/// the symbol physically encodes (both format copies, both version copies, applied mask, mode indicator).
+fn verify(qr: &fast_qr::QRCode, bc: &BuildCase, what: &str, obs: &mut Obs) -> Result<Reported, Fail> {
     let n = qr.size;
+    let bc = &Tagged(bc, what);
     // reported fields are all present
     ensure!(
         qr.ecl.is_some() && qr.mask.is_some() && qr.version.is_some() && qr.mode.is_some(),
@@ -50,7 +95,7 @@ pub fn check(bc: &BuildCase, fam: &str, obs: &mut Obs) -> Result<(), Fail> {
     }
     // size <-> version
     ensure!(n == 17 + 4 * r_version, "size_field", "reported size {} but reported version {} needs {} ({:?})", n, r_version, 17 + 4 * r_version, bc);
-    let vals = built.values();
+    let vals: Vec<bool> = qr.data[..(n * n).min(qr.data.len())].iter().map(|m| m.value()).collect();
     let g = geometry(r_version);
     // both copies of the format information, bit by bit at the ISO positions
     let want = format_word(r_level.format_bits(), r_mask);
@@ -133,24 +178,25 @@ pub fn check(bc: &BuildCase, fam: &str, obs: &mut Obs) -> Result<(), Fail> {
             );
         }
     }
-    let forced: Vec<&str> = [
-        bc.opts.level.map(|_| "level"),
-        bc.opts.mask.map(|_| "mask"),
-        bc.opts.version.map(|_| "version"),
-        bc.opts.mode.map(|_| "mode"),
-    ]
-    .iter()
-    .flatten()
-    .copied()
-    .collect();
-    let key = format!("{}|{}|{}|{}", r_level.name(), r_mask, r_version, forced.join("+"));
-    obs.nontrivial(crate::engine::hash_bytes(key.as_bytes()));
-    obs.sample(&format!("forced:{}", forced.join("+")), || {
-        let mut s = bc.to_sample();
-        s["reported"] = json!({"level": r_level.name(), "mask": r_mask, "version": r_version, "mode": r_mode.name(), "size": n});
-        s
-    });
-    Ok(())
+    Ok((r_level, r_mask, r_version, r_mode))
+}
+
+/// the case together with the name of the copy under test, for messages
+struct Tagged<'a>(&'a BuildCase, &'a str);
+impl std::fmt::Debug for Tagged<'_> {
+    fn fmt(&self, f: &mut std::fmt::Formatter<'_>) -> std::fmt::Result {
+        if self.1.is_empty() {
+            write!(f, "{:?}", self.0)
+        } else {
+            write!(f, "{} of {:?}", self.1, self.0)
+        }
+    }
+}
+impl std::ops::Deref for Tagged<'_> {
+    type Target = BuildCase;
+    fn deref(&self) -> &BuildCase {
+        self.0
+    }
 }
 
 /// The JS/WASM entry points build symbols too: the level physically encoded by `qr(content)` and by
